@@ -123,6 +123,7 @@ class Executor:
         if a.vararg is not None:
             env[a.vararg.arg] = tuple(args[len(params):])
         ndef = len(a.defaults)
+        kmap = kwargs.get("__kwmap__")
         for i, name in enumerate(params):
             if name in env:
                 if name in kwargs:
@@ -144,7 +145,13 @@ class Executor:
             else:
                 raise_py(TypeError, f"{qn}() missing keyword-only argument '{kw.arg}'")
         if a.kwarg is not None:
-            env[a.kwarg.arg] = self.bm.make_kwargs(kwargs)
+            if "__kwmap__" in kwargs:
+                km = kwargs.pop("__kwmap__")
+                if kwargs:
+                    raise Unsupported("symbolic ** plus explicit keywords")
+                env[a.kwarg.arg] = km
+            else:
+                env[a.kwarg.arg] = self.bm.make_kwargs(kwargs)
         elif kwargs:
             raise_py(TypeError, f"{qn}() got an unexpected keyword argument '{next(iter(kwargs))}'")
         return env
